@@ -593,3 +593,13 @@ M("C11", "pairs-inserted-at-the-front", F, '            b = value_to_string(b)\n
 M("C11", "parameter-pairs-comprehension-over-dict", F, PARAM_BODY,
   '        self.tree.children.extend(\n            Tree("parameter", [Tree("string", [Token("STRING", value_to_string(param))]), Tree("string", [Token("STRING", value_to_string(val))])])\n'
   '            for param, val in dict(value).items()\n        )\n', "C11.R12")
+
+# ------------------------------------------------------------------------------------------------ R13 (F27)
+_SKIP = ("                    if line and line[0] == \"#\":\n"
+         "                        # commented out statement (`# dns_resolver \"..\";`), not a setting: it parses back as a comment\n"
+         "                        line = []\n                        continue\n")
+M("C11", "as-dict-comment-statement-not-taken-out", F, _SKIP, "", "C11.R13")
+M("C11", "as-dict-comment-statement-wrong-keyword", F, _SKIP, _SKIP.replace('line[0] == "#"', 'line[0] == "//"'), "C11.R13")
+T("C11", "twin-type-read-under-isinstance", F, _SKIP + "                    key = \".\".join(stack)\n", "                    key = \".\".join(stack)\n",
+  edits=[(F, "                            if x.type == \"STRING\":\n", "                            if isinstance(x, Token) and x.type == \"STRING\":\n")])
+T("C11", "twin-comment-statement-membership-test", F, _SKIP, _SKIP.replace('line[0] == "#"', 'line[0] in ("#",)'))
